@@ -27,6 +27,11 @@ TEMPLATES = [
     ("function f(n) { local t; t = n; if (n > 0) { f(n - 1); } return t; } return f(3);", None, None, None),
     ("function f() { foreach x in [1] { foreach y in [2] { return x + y; } } } a = f(); b = f(); return [a, b];", [3, 3], None, "ok"),
     ("function boom() { return 1 / 0; } function safe() { return 2; } a = safe(); return a;", 2, None, "ok"),
+    ("function f() { 24; } foreach x in [1, 2] { f(); } return 5;", 5, None, "ok"),
+    ("function g() { x = 5; } function f() { local x; x = 1; g(); return x; } r = f(); return [r, x];", [1, 5], None, "ok"),
+    ("function g() { return x; } function f(x) { return g(); } x = 7; return f(1);", 7, None, "ok"),
+    ("function g() { n = n + 1; } function f() { foreach n in [10] { g(); t(n); } } n = 1; f(); return n;", 2, None, "ok"),
+    ("function f() { x = 1; 24; } n = 0; foreach i in 1..3 { f(); n = n + 1; } return n;", 3, None, "ok"),
 ]
 
 class C06(Prop):
